@@ -39,9 +39,27 @@
       `C04_finding_reuse_full_claim_crash` refutes `C04_no_crash_full legacyCfg`, and
       `C04_deployMu_is_code` ties `codeCfg.unlockUnpaired` to the go/ast fact read from
       core/task/manager.go.
+
+  STATUS UPDATES WHOSE OPTIONAL FIELDS ARE ABSENT (last section). A task belongs to its environment until it is
+  released — whatever the master tells the core about it in between. `Own.Step.statusUpdate t u` is updateTaskStatus for
+  a running task: TASK_RUNNING or a state the switch has no case for, with agent_id / executor_id present or not (an
+  update built by the master, e.g. the answer to a reconciliation after a re-subscription, need not carry them; the
+  AliECS executor's always do). It is a step like any other, so `C04_inv`, `C04_invariant`, `C04_kill_only_unlocked`
+  quantify over histories that contain any number of them. On top: the step changes NOTHING an observer of ownership
+  can see (`C04_status_update_invisible`), entry by entry it keeps owner and lock and makes no owned task claimable
+  (`C04_status_update_keeps_lock`), and a sweep of unowned tasks or a KillTasks request that follows it spares every
+  task that was locked before it (`C04_status_then_sweep_spares_owned`). This rests on the two nil guards in front of
+  the id copies of updateTaskStatus (Model/TaskIds.lean `Guards`; `C04_status_id_copy_is_code` ties `idGuardsInCode` to
+  go/ast facts regenerated on every run, incl. the list of ALL writers of the two ids in package core/task):
+  `C04_id_guards_needed` — a guard configuration keeps every locked task locked under every update iff it is the
+  code's —, `C04_unguarded_id_copy_unlocks_owned` — without the guards (NOT the code) one TASK_RUNNING without
+  executor_id un-owns a task of a live environment, the next Cleanup kills it, with reuseUnlockedTasks it is
+  claimable: Spec.C04 rejects both rounds —, `C04_complete_updates_hide_the_difference` — complete updates cannot tell
+  the two apart, which is why ordinary operation never shows it.
 -/
 import ControlModel.Proofs.OwnOverlap
 import ControlModel.Gen.C04Facts
+import ControlModel.Gen.TaskIdFacts
 
 open Own
 
@@ -469,3 +487,140 @@ theorem C04_claim_race_leaves_zombie :
 
 /-- The witness violates exactly the hypothesis of `C04_overlapping_deploy_partial`. -/
 theorem C04_claim_race_has_claim_steps : noClaimSteps (claimRaceSchedule.take 14) = false := by decide
+
+/-! ## status updates whose optional fields are absent -/
+
+/-- **The guards of the model are the guards of the code.** In updateTaskStatus both id copies stand in the
+    TASK_RUNNING clause, each under `if status.Get…ID() != nil` (go/ast, regenerated on every run), and nothing else in
+    package core/task writes `agentId` / `executorId` of a task but HandleAgentFailed / HandleExecutorFailed, which blank
+    one of them for the tasks of a lost agent / executor (the model's `Task.lose`). -/
+theorem C04_status_id_copy_is_code :
+    idGuardsInCode = { agent := Gen.TaskIds.agentIdCopy == "guarded", executor := Gen.TaskIds.executorIdCopy == "guarded" } ∧
+    Gen.TaskIds.copiesUnderRunningOnly = true ∧
+    Gen.TaskIds.idWriteSites = ["HandleAgentFailed:agentId:blank", "HandleExecutorFailed:executorId:blank",
+                                "updateTaskStatus:agentId:status", "updateTaskStatus:executorId:status"] := by decide
+
+/-- **A status update is invisible to ownership.** Whatever it omits (agent_id, executor_id, both, nothing), whatever
+    task it names, in ANY state: the listing, every roster row (owner, lock, role state), the active detectors, the
+    master's table — the whole observable view — and the KILL log are what they were. -/
+theorem C04_status_update_invisible (s : State) (t : TaskId) (u : StatusUpd) :
+    viewOf (step s (.statusUpdate t u)).1 = viewOf s ∧ (step s (.statusUpdate t u)).1.killLog = s.killLog := by
+  unfold step
+  split
+  · exact ⟨rfl, rfl⟩
+  · exact ⟨view_statusUpdate s t u, rfl⟩
+
+/-- Entry by entry: the roster after the update is the old one with, per entry, the same id, parent, owner and lock;
+    an entry that was locked is locked and NOT claimable, an ACTIVE one stays ACTIVE. -/
+theorem C04_status_update_keeps_lock (s : State) (x : TaskId) (u : StatusUpd) :
+    ∃ g : Task → Task, (statusUpdate idGuardsInCode s x u).roster = s.roster.map g ∧
+      ∀ t, (g t).id = t.id ∧ (g t).parent = t.parent ∧ (g t).owner = t.owner ∧ (g t).isLocked = t.isLocked ∧
+           (t.isLocked = true → (g t).claimable = false) ∧ (t.active = true → (g t).active = true) := by
+  refine ⟨fun t => if decide (t.id = x) && t.agent && t.executor then t.onStatus TaskIds.codeGuards u else t, rfl, ?_⟩
+  intro t
+  have e := statusUpdate_code_entry x u t
+  refine ⟨e.1, e.2.1, e.2.2.2.2.1, e.2.2.2.1, ?_, e.2.2.2.2.2.2.2.2.2⟩
+  intro hl
+  simp only [Task.claimable, e.2.2.2.1, hl, Bool.not_true, Bool.false_and]
+
+/-- **After any status update, sparse or not, Cleanup and KillTasks from elsewhere do not touch an owned task.** In a
+    state of a run (`Inv`): a task locked before the update is, after the update AND a following sweep of unowned tasks
+    (`ids = []`: Cleanup — the start of every CreateEnvironment, the CleanupTasks RPC) or KillTasks request naming any
+    ids, still in the roster, with the same owner, locked, not claimable; its row at the master is untouched and no
+    KILL was logged for it. -/
+theorem C04_status_then_sweep_spares_owned (s : State) (h : Inv s) (x : TaskId) (u : StatusUpd) (ids : List TaskId)
+    (t : Task) (ht : t ∈ s.roster) (hl : t.isLocked = true) :
+    (∃ t' ∈ (cleanupTasks (statusUpdate idGuardsInCode s x u) ids).roster,
+        t'.id = t.id ∧ t'.owner = t.owner ∧ t'.isLocked = true ∧ t'.claimable = false) ∧
+    (∀ m ∈ s.master, m.id = t.id → m ∈ (cleanupTasks (statusUpdate idGuardsInCode s x u) ids).master) ∧
+    (∀ e ∈ (cleanupTasks (statusUpdate idGuardsInCode s x u) ids).killLog, e ∈ s.killLog ∨ e.1 ≠ t.id) := by
+  have e := statusUpdate_code_entry x u t
+  have h1 : Inv (statusUpdate idGuardsInCode s x u) := inv_statusUpdate s x u h
+  have hm : (if decide (t.id = x) && t.agent && t.executor then t.onStatus TaskIds.codeGuards u else t)
+      ∈ (statusUpdate idGuardsInCode s x u).roster := List.mem_map.mpr ⟨t, ht, rfl⟩
+  have hl' := e.2.2.2.1.trans hl
+  obtain ⟨a, b, c⟩ := locked_survives_cleanupTasks _ ids h1.rosterNodup _ hm hl'
+  refine ⟨⟨_, a, e.1, e.2.2.2.2.1, hl', ?_⟩, ?_, ?_⟩
+  · simp only [Task.claimable, hl', Bool.not_true, Bool.false_and]
+  · intro m hmm hid; exact b m hmm (hid.trans e.1.symm)
+  · intro k hk
+    rcases c k hk with c1 | c2
+    · exact Or.inl c1
+    · exact Or.inr (fun hh => c2 (hh.trans e.1.symm))
+
+/-- **Both guards are needed**: a guard configuration keeps every locked roster entry locked under every status update
+    iff it is the code's. -/
+theorem C04_id_guards_needed (g : TaskIds.Guards) :
+    (∀ (t : Task) (u : StatusUpd), t.isLocked = true → (t.onStatus g u).isLocked = true) ↔ g = idGuardsInCode := by
+  constructor
+  · intro h
+    obtain ⟨ga, ge⟩ := g
+    have h1 := h { id := 1, cls := 0, host := 1, agent := true, offer := true, executor := true, parent := some 0,
+                   active := true, state := .CONFIGURED } { running := true, agent := false, executor := true } rfl
+    have h2 := h { id := 1, cls := 0, host := 1, agent := true, offer := true, executor := true, parent := some 0,
+                   active := true, state := .CONFIGURED } { running := true, agent := true, executor := false } rfl
+    cases ga <;> cases ge <;> simp_all [Task.onStatus, TaskIds.copyId, Task.isLocked, Task.idsOk, idGuardsInCode, TaskIds.codeGuards]
+  · rintro rfl t u hl
+    rw [isLocked_onStatus _ u t hl]
+    cases hr : u.running <;> simp [TaskIds.unlocks, idGuardsInCode, TaskIds.codeGuards, StatusUpd.kind, hr]
+
+/-- A complete update — both optional fields present, what the AliECS executor always sends — is handled alike with
+    and without the guards: deployments, transitions and teardowns driven by executor updates cannot tell the
+    configurations apart. -/
+theorem C04_complete_updates_hide_the_difference (g : TaskIds.Guards) (s : State) (x : TaskId) (r : Bool) :
+    statusUpdate g s x (StatusUpd.complete r) = statusUpdate idGuardsInCode s x (StatusUpd.complete r) := by
+  have h : ∀ t : Task, t.onStatus g (StatusUpd.complete r) = t.onStatus idGuardsInCode (StatusUpd.complete r) :=
+    fun t => onStatus_complete g r t
+  simp only [statusUpdate, h]
+
+/-- Environment 0 with one task (task 1, class 1 on host 1), CONFIGURED. -/
+def sparseVictim : State :=
+  run (init true [1, 2, 3, 4])
+    [.createBegin 0 { bad := .ok, dets := [0], roles := [{ kind := .task, cls := 1, host := 1 }] },
+     .createCleanup 0, .createInsert 0, .createSettle 0 {}]
+
+/-- A TASK_RUNNING update for task 1 without executor_id (a master-built reconciliation answer). -/
+def sparseRunning : StatusUpd := { running := true, agent := true, executor := false }
+
+/-- **Without the guards (NOT the code) one sparse update un-owns a task of a live environment.** On `sparseVictim`:
+    with the code's guards nothing moves. With the copies unguarded the task keeps its parent (environment 0 still
+    references it, GetTask still names environment 0) but is no longer locked: Spec.C04's frame clause rejects the
+    round although nothing was asked of environment 0; the next sweep of unowned tasks — the pre-deployment Cleanup of
+    ANY creation, the CleanupTasks RPC — kills it and drops it from the roster while environment 0 is listed and
+    references it (`killsUnowned`, the whole round predicate: false); and after a RESET (task in STANDBY) it is
+    claimable by another environment's acquireTasks (reuseUnlockedTasks). -/
+theorem C04_unguarded_id_copy_unlocks_owned :
+    (viewOf sparseVictim).roster = [{ task := 1, owner := some 0, locked := true, state := some .CONFIGURED }] ∧
+    viewOf (statusUpdate idGuardsInCode sparseVictim 1 sparseRunning) = viewOf sparseVictim ∧
+    viewOf (cleanup (statusUpdate idGuardsInCode sparseVictim 1 sparseRunning)) = viewOf sparseVictim ∧
+    (viewOf (statusUpdate TaskIds.noGuards sparseVictim 1 sparseRunning)).roster =
+      [{ task := 1, owner := some 0, locked := false, state := none }] ∧
+    (viewOf (statusUpdate TaskIds.noGuards sparseVictim 1 sparseRunning)).envs.map (fun E => (E.env, E.tasks)) = [(0, [1])] ∧
+    frameOk [] (viewOf sparseVictim) (viewOf (statusUpdate TaskIds.noGuards sparseVictim 1 sparseRunning)) = false ∧
+    (viewOf (cleanup (statusUpdate TaskIds.noGuards sparseVictim 1 sparseRunning))).roster = [] ∧
+    (viewOf (cleanup (statusUpdate TaskIds.noGuards sparseVictim 1 sparseRunning))).master =
+      [{ task := 1, label := 0, mesos := .terminal, killed := true }] ∧
+    (cleanup (statusUpdate TaskIds.noGuards sparseVictim 1 sparseRunning)).killLog = [(1, none)] ∧
+    killsUnowned (viewOf (statusUpdate TaskIds.noGuards sparseVictim 1 sparseRunning))
+      (viewOf (cleanup (statusUpdate TaskIds.noGuards sparseVictim 1 sparseRunning))) = false ∧
+    specC04Round [] (viewOf (statusUpdate TaskIds.noGuards sparseVictim 1 sparseRunning))
+      (viewOf (cleanup (statusUpdate TaskIds.noGuards sparseVictim 1 sparseRunning))) = false ∧
+    (statusUpdate TaskIds.noGuards (step sparseVictim (.control 0 .RESET [] false)).1 1 sparseRunning).roster.map (·.claimable) = [true] ∧
+    (statusUpdate idGuardsInCode (step sparseVictim (.control 0 .RESET [] false)).1 1 sparseRunning).roster.map (·.claimable) = [false] := by
+  decide
+
+/-- Non-vacuity: the hypotheses of `C04_status_then_sweep_spares_owned` hold of a realistic state (two live
+    environments, the update names a task of the first, the sweep is the pre-deployment Cleanup of a third creation),
+    the update is sparse, and the step is taken (task 1 is in the roster with both ids). -/
+example :
+    let s := run (init false [1, 2, 3, 4])
+      [.createBegin 0 { bad := .ok, dets := [0], roles := [{ kind := .task, cls := 1, host := 1 }, { kind := .task, cls := 2, host := 2 }] },
+       .createCleanup 0, .createInsert 0, .createSettle 0 {},
+       .createBegin 1 { bad := .ok, dets := [1], roles := [{ kind := .task, cls := 3, host := 3 }] },
+       .createCleanup 1, .createInsert 1, .createSettle 1 {}, .control 0 .START [] false]
+    (viewOf s).roster.map (fun r => (r.task, r.owner, r.locked)) = [(1, some 0, true), (2, some 0, true), (3, some 1, true)] ∧
+    (viewOf (run s [.statusUpdate 1 { running := true, agent := false, executor := false },
+                    .createBegin 2 { bad := .ok, dets := [2], roles := [{ kind := .task, cls := 4, host := 4 }] }, .createCleanup 2, .cleanup,
+                    .killIds [1, 2, 3]])).roster = (viewOf s).roster ∧
+    (run s [.statusUpdate 1 { running := true, agent := false, executor := false }, .cleanup, .killIds [1, 2, 3]]).killLog = [] := by
+  decide
